@@ -30,8 +30,48 @@ FU = "kaira/models/fec/utils.py"
 CSV = "kaira/models/fec/rank_polar.csv"
 
 
+def gm_evaluated(repo: Repo):
+    """calculate_gm evaluated (own arithmetic) for N = 2 .. 64: the published generator matrix must be the m-fold Kronecker
+    power of [[1, 0], [1, 1]]."""
+    from ..constfold import Unfoldable
+    from ..frag import FragRaise, FragReturn, run_fragment
+
+    fi = repo.func(PE, "calculate_gm")
+    params = [p_ for p_ in fi.params]
+    funcs = {nm: f.node for nm, f in fi.module.functions.items() if nm != fi.name}
+    for m in range(1, 7):
+        N = 2**m
+        names = {params[0]: N}
+        for p_ in params[1:]:
+            names[p_] = "cpu"
+        try:
+            run_fragment(fi.body, names, {}, funcs=funcs, materialise=True, max_steps=2000000)
+            return None, "no value returned"
+        except FragReturn as ret:
+            G = ret.value
+        except (Unfoldable, FragRaise, TypeError, IndexError, ValueError) as exc:
+            return None, str(exc)
+        want = [[1]]
+        for _ in range(m):
+            k_ = len(want)
+            want = [[(want[i % k_][j % k_] if not (i < k_ and j >= k_) else 0) for j in range(2 * k_)] for i in range(2 * k_)]
+        if not (isinstance(G, list) and len(G) == N and all(isinstance(r, list) and len(r) == N for r in G)):
+            return None, f"N = {N}: the result is not an N x N matrix"
+        try:
+            same = [[float(x) for x in r] for r in G] == [[float(x) for x in r] for r in want]
+        except (TypeError, ValueError):
+            return None, "the result is not numeric"
+        if not same:
+            return VIOLATION, f"N = {N}: calculate_gm returns {str(G)[:120]}..., the {m}-fold Kronecker power of [[1,0],[1,1]] is {str(want)[:120]}..."
+    return OK, "equals the m-fold Kronecker power of [[1,0],[1,1]] for N = 2 .. 64"
+
+
 def rule_kernel(repo: Repo, rep: Report) -> int:
     fi = repo.func(PE, "calculate_gm")
+    gst_, gd_ = gm_evaluated(repo)
+    if gst_ is not None:
+        rep.add("KERNEL", fi, "calculate_gm evaluated for N = 2 .. 64", gst_, gd_, node=fi.node)
+        return 2
     body = {unparse(s.targets[0]): s.value for s in stmts_of(fi.body) if isinstance(s, ast.Assign)}
     k = body.get("factor_graph")
     lit = None
@@ -341,7 +381,9 @@ def partial_sum_order(rep: Report, f2: FuncInfo, dr: FuncInfo) -> None:
     from ..ndlist import eval_shuffle
 
     what = "order of the re-encoded partial sums"
-    steps = [(f2, *t) for t in _reindex_steps(f2)] + [(dr, *t) for t in _reindex_steps(dr) if t[0].targets[0].id == "x"]
+    # the block's re-encoded word in decode_recursive: the local that receives the recombination helper's result, whatever it is called
+    xnames = {s_.targets[0].id for s_ in ast.walk(dr.node) if isinstance(s_, ast.Assign) and len(s_.targets) == 1 and isinstance(s_.targets[0], ast.Name) and isinstance(s_.value, ast.Call) and attr_chain(s_.value.func) == f"self.{f2.name}"} or {"x"}
+    steps = [(f2, *t) for t in _reindex_steps(f2)] + [(dr, *t) for t in _reindex_steps(dr) if t[0].targets[0].id in xnames]
     for fi, st, pe, guards in steps:
         if guards != ["self.polar_i"]:
             rep.undecided("SC-SHAPE", fi, f"{what}: {unparse(st)}", f"re-indexing under guards {guards} (code shape not recognised)", node=st)
